@@ -39,6 +39,16 @@ Your final message: a short summary per patch (one paragraph each) — file/func
 """
 
 
+FOCUS = {
+    # optional extra paragraph appended to the brief of a round (argv[6]); it only steers WHERE to look, never what the checks contain
+    "entry-points": "\nFOCUS OF THIS ROUND: look beyond the main function. Prefer changes in the less travelled parts of the code this property is anchored in -- alternate "
+                    "constructors and classmethods, properties and setters, `__eq__`/`is_similar`, copy constructors, `__str__`/`__repr__`-adjacent helpers, default-argument handling, "
+                    "option combinations that are rarely used together, error branches, the interplay of two public calls on one object, module-level state, and numerically special but legal "
+                    "inputs (NaN, inf, empty or one-element arrays, float32 or integer arrays, negative zero, unsorted or duplicated axis values). At least one of your two breaking changes should "
+                    "need a HISTORY (two or more calls) or an INTERPLAY of two arguments to manifest.\n",
+}
+
+
 def main():
     prop, rdir, a, b, n = sys.argv[1:6]
     rec = None
@@ -51,7 +61,10 @@ def main():
     keep["anchors"] = {k: v for k, v in keep["anchors"].items() if k != "hook_needed"}
     text = "title: %s\n\nstatement: %s\n\nquantified over: %s\n\nwhy the existing tests cannot settle it: %s\n\nwhere it lives in the code (line numbers are approximate):\n%s" % (
         keep["title"], keep["statement"], keep["quantifier"]["text"], keep["why_tests_cant"], json.dumps(keep["anchors"], indent=1))
-    sys.stdout.write(TEMPLATE.format(wt=os.path.join(rdir, prop), record=text, a=a, b=b, n=n))
+    out = TEMPLATE.format(wt=os.path.join(rdir, prop), record=text, a=a, b=b, n=n)
+    if len(sys.argv) > 6:
+        out = out.replace("WHAT TO PRODUCE,", FOCUS[sys.argv[6]].strip("\n") + "\n\nWHAT TO PRODUCE,", 1)
+    sys.stdout.write(out)
 
 
 if __name__ == "__main__":
